@@ -180,7 +180,7 @@ class Gen:
         r, o = self.r, self.opt
         B = self.bodies[b - 1]
         callees = [m for m in meths if B["kind"] == "T" or m > b]
-        if o["p_defect"] and r.random() < o["p_defect"] and B["kind"] == "M":
+        if o["p_defect"] and r.random() < o["p_defect"] * 0.25 and B["kind"] == "M":
             callees = list(meths)  # may create recursion
         out = []
         n_items = r.choice([0, 1, 1, 2, 2, 3]) if depth == 0 else r.choice([0, 1, 1, 2])
